@@ -37,7 +37,37 @@ def _in_try (g, n, names=('Exception', 'BaseException')):
       if any(norm(x).split('.')[-1] in names for x in ts): return True
   return False
 
+def _budget_follows_cursor (ctx, repo, mods):
+  """a parser loop that hands a callee the cursor and a remaining-bytes budget keeps the two in step: the budget is computed from the
+  cursor, or it is re-assigned in the loop body - a budget fixed before the loop lets the second element read past the end"""
+  n = 0
+  for m in mods.values():
+    for cls in m.classes.values():
+      for f in cls.methods.values():
+        g = None
+        for call in calls_in(f.node):
+          kw = [k for k in call.keywords if k.arg in ('max_length', 'avail', 'max_len')]
+          if not kw or len(call.args) < 2: continue
+          if g is None: g = q.cfg_of(f)
+          cn = q.enclosing_stmt_node(g, call)
+          loops = [(st_, h_, a_) for st_, h_, a_ in g.loop_nodes if cn is not None and cn in g.loop_body_nodes(h_)]
+          if not loops: continue
+          cur = call.args[1]
+          if not isinstance(cur, ast.Name): continue
+          body = g.loop_body_nodes(loops[-1][1])
+          cur_moves = any(isinstance(t_, ast.Name) and t_.id == cur.id and q.enclosing_stmt_node(g, st_) in body for t_, v_, st_, k_ in q.stores_in(f.node, nested=False))
+          if not cur_moves: continue
+          b = kw[0].value
+          n += 1
+          names = [x.id for x in ast.walk(b) if isinstance(x, ast.Name)]
+          follows = cur.id in names or any(isinstance(t_, ast.Name) and t_.id in names and q.enclosing_stmt_node(g, st_) in body for t_, v_, st_, k_ in q.stores_in(f.node, nested=False))
+          ctx.ob('R-EFFECT', f, "the remaining-bytes budget handed to `%s` follows the cursor" % norm(call.func)[:40], follows, "`%s` is recomputed / derived from `%s` in the loop" % (norm(b), cur.id) if follows else
+                 "`%s=%s` is fixed before the loop while `%s` advances in it: from the second element on the callee is told more bytes remain than do - a truncated or over-claiming header makes it read past the end (struct.error out of parse())"
+                 % (kw[0].arg, norm(b), cur.id), (m, call), 'D4')
+  ctx.stat('cursor/budget call sites in parser loops', n)
+
 def run (ctx, repo, mods, type_parser_classes, fallback_classes=()):
+  _budget_follows_cursor(ctx, repo, mods)
   pbase = repo.cls('lib.packet.packet_base', 'packet_base')
   classes = [c for m in mods.values() for c in m.classes.values()]
   n_str = n_arity = n_attr = n_assert = n_rec = n_tlv = 0
